@@ -5,6 +5,7 @@ import (
 	"errors"
 	"fmt"
 	"reflect"
+	"strconv"
 	"strings"
 	"time"
 
@@ -108,6 +109,8 @@ var argKinds = []argv{
 	{kind: "time", expr: "tm"},
 	{kind: "arr", expr: "[]"},
 	{kind: "arr", expr: "[null,'a']", elems: []argv{{kind: "null"}, {kind: "str", str: "a"}}},
+	{kind: "num", num: "9007199254740993", expr: "(9007199254740993)"},
+	{kind: "num", num: "0.0000000000000000000005", expr: "(5e-22)"},
 }
 
 const (
@@ -118,6 +121,7 @@ const (
 
 type anyValue struct{}   // invoked, received value not fixed
 type decWant struct{ s string }
+type numText struct{ s string }
 type identWant struct{ obj interface{} }
 
 func truncInt(num string) int64 {
@@ -126,8 +130,7 @@ func truncInt(num string) int64 {
 }
 
 func nearestF64(num string) float64 {
-	var f float64
-	fmt.Sscan(num, &f)
+	f, _ := strconv.ParseFloat(num, 64)
 	return f
 }
 
@@ -142,7 +145,7 @@ func row(pk int, a argv) (int, interface{}) {
 		case "bool":
 			return vD, "true"
 		case "num":
-			return vD, a.num
+			return vD, numText{a.num} // any text that denotes the same number
 		case "str":
 			return vD, a.str
 		}
@@ -160,6 +163,9 @@ func row(pk int, a argv) (int, interface{}) {
 		case "null", "bool":
 			return vU, nil
 		case "num":
+			if t := truncInt(a.num); (pk == pkInt8 && (t > 127 || t < -128)) || (pk == pkInt16 && (t > 32767 || t < -32768)) || (pk == pkInt32 && (t > 2147483647 || t < -2147483648)) {
+				return vU, nil // does not fit the parameter type: not fixed by the statement
+			}
 			switch pk {
 			case pkInt:
 				return vD, int(truncInt(a.num))
@@ -258,6 +264,14 @@ func sameArg(got interface{}, want interface{}) bool {
 		return true
 	case nil:
 		return got == nil
+	case numText:
+		gs, ok := got.(string)
+		if !ok {
+			return false
+		}
+		gd, ok1 := ref.ParseDec(gs)
+		wd, _ := ref.ParseDec(w.s)
+		return ok1 && gd.Finite() && gd.Cmp(wd) == 0
 	case decWant:
 		d, ok := decOf(got)
 		wd, _ := ref.ParseDec(w.s)
